@@ -14,9 +14,11 @@ Not covered here: "accepted configurations initialise" needs the system harness
 (py/impl_drivers/system.py); see the uncalled hook `accepted_initialises` below.
 """
 import importlib.util  # noqa: F401
+import copy
 import itertools
 import json
 import os
+import random
 import re
 import types
 from fractions import Fraction
@@ -417,29 +419,38 @@ def real_setup(raw, d):
         return classify_exc(e, TOMLConfigError), None
 
 
+def write_restart_real(cfg):
+    """restart.toml in the cwd, written by the real REPEX_state.write_toml from configuration cfg
+    (a bare REPEX_state without __init__, so that its properties - cstep, ... - work on the stub)"""
+    import numpy as np
+    from infretis.classes.repex import REPEX_state
+    size = cfg["current"]["size"]
+    stub = REPEX_state.__new__(REPEX_state)
+    stub.config = cfg
+    stub.live_paths = lambda: list(range(size))
+    stub.locked = []
+    stub._offset = 1
+    stub.rgen = np.random.default_rng(0)
+    stub.traj_data = {}
+    REPEX_state.write_toml(stub)
+
+
+def touch_active_paths(cfg, d):
+    """the stored paths a restart file refers to (setup_config only asks whether traj.txt exists)"""
+    load_dir = cfg["simulation"].get("load_dir", "trajs")
+    for act in cfg["current"]["active"]:
+        os.makedirs(os.path.join(d, load_dir, str(act)), exist_ok=True)
+        open(os.path.join(d, load_dir, str(act), "traj.txt"), "a").close()
+
+
 def restart_fixed_point(cfg1, d):
     """cfg1 = accepted, normalised configuration. Write restart.toml with the real write_toml,
     re-read it with the real setup_config, twice.  Returns None or an error string."""
-    import numpy as np
-    from infretis.classes.repex import REPEX_state
     from infretis.setup import setup_config
-    size = cfg1["current"]["size"]
-
     def write(cfg):
-        # a bare REPEX_state (no __init__) so that its properties (cstep, ...) work on the stub
-        stub = REPEX_state.__new__(REPEX_state)
-        stub.config = cfg
-        stub.live_paths = lambda: list(range(size))
-        stub.locked = []
-        stub._offset = 1
-        stub.rgen = np.random.default_rng(0)
-        stub.traj_data = {}
-        REPEX_state.write_toml(stub)
+        write_restart_real(cfg)
 
-    load_dir = cfg1["simulation"].get("load_dir", "trajs")
-    for act in range(size):
-        os.makedirs(os.path.join(d, load_dir, str(act)), exist_ok=True)
-        open(os.path.join(d, load_dir, str(act), "traj.txt"), "w").close()
+    touch_active_paths(cfg1, d)
     write(cfg1)
     cfg2 = setup_config("restart.toml", "restart.toml")
     if cfg2 is None:
@@ -467,6 +478,281 @@ def restart_fixed_point(cfg1, d):
 def enc_normalised(cfg, extra_keys=()):
     """the 10 fields of a normalised configuration, as the model prints them"""
     return " ".join(encode(cfg, extra_keys).split(" ")[1:])
+
+
+# --------------------------------------------------------------------------- the restart route
+#
+# A configuration reaches setup_config by one of three routes:
+#   fresh    infretis.toml without a [current] table;
+#   restart  restart.toml, the file the program wrote (and the user edited: more steps, more
+#            workers, another cap, ...), given as the input file;
+#   equal    infretis.toml whose tables all equal those of the restart.toml lying next to it, which
+#            is then used instead.
+# The property's list holds whatever the route.  Program-written restart files are edited here
+# in every way of the property's list (and in harmless ways), written back as a user would and
+# handed to the real setup_config.
+
+ROUTES = ("restart", "equal", "fresh")
+
+
+def _set(path, value):
+    def f(c):
+        for k in path[:-1]:
+            c = c[k]
+        c[path[-1]] = value
+    return f
+
+
+def restart_edits(written, rng, n_random=0):
+    """[(label, class, edit function)] for the restart file `written` (a dict): every position
+    of every edit class of the property's list, harmless edits, and n_random random overlays of all
+    validated fields.  Whether the result is valid is decided by the oracle, not here."""
+    sim = written["simulation"]
+    intf = list(sim["interfaces"])
+    moves = list(sim["shooting_moves"])
+    ee = sim.get("ensemble_engines", [])
+    n = len(intf)
+    out = [("steps raised only", "steps", lambda c: None)]
+    # workers
+    for w in sorted({0, 1, max(n - 2, 0), n - 1, n, n + 1, 100}):
+        out.append((f"runner.workers = {w}", "workers", _set(("runner", "workers"), w)))
+    # interfaces: unsorted, duplicates, too few, one more than there are moves
+    for i in range(n - 1):
+        def swap(c, i=i):
+            x = c["simulation"]["interfaces"]
+            x[i], x[i + 1] = x[i + 1], x[i]
+        out.append((f"interfaces {i} and {i + 1} swapped", "unsorted", swap))
+        out.append((f"interfaces[{i + 1}] = interfaces[{i}]", "duplicate",
+                    _set(("simulation", "interfaces", i + 1), intf[i])))
+        out.append((f"interfaces[{i}] = interfaces[{i + 1}]", "duplicate",
+                    _set(("simulation", "interfaces", i), intf[i + 1])))
+    if n >= 3:
+        out.append(("interfaces[0] = interfaces[-1]", "unsorted", _set(("simulation", "interfaces", 0), intf[-1])))
+        out.append(("interfaces reversed", "unsorted", _set(("simulation", "interfaces"), intf[::-1])))
+    for k in range(0, n):
+        out.append((f"only the first {k} interfaces kept", "few-interfaces" if k < 2 else "interfaces-cut",
+                    _set(("simulation", "interfaces"), intf[:k])))
+    if intf:
+        out.append(("one interface appended", "interfaces-added",
+                    _set(("simulation", "interfaces"), intf + [intf[-1] + 1])))
+    # shooting moves
+    for k in range(1, len(moves) + 1):
+        out.append((f"last {k} shooting moves dropped", "moves", _set(("simulation", "shooting_moves"), moves[:-k])))
+    out.append(("one shooting move appended", "moves-added", _set(("simulation", "shooting_moves"), moves + ["sh"])))
+    # interface cap, with the moves as they are and with each ensemble turned into wire fencing
+    caps = set()
+    if intf:
+        caps |= {intf[0] - 1, intf[-1] + 0.5, intf[-1] + 4, 0.0}
+        caps |= set(intf)
+        caps |= {(a + b) / 2 for a, b in zip(intf, intf[1:])}
+    for q in sorted(caps):
+        out.append((f"tis_set.interface_cap = {q}", "cap", _set(("simulation", "tis_set", "interface_cap"), q)))
+    for j in range(len(moves)):
+        out.append((f"shooting_moves[{j}] = 'wf'", "wf", _set(("simulation", "shooting_moves", j), "wf")))
+        if j < n:
+            for q in sorted({intf[max(j - 1, 0)], intf[max(j - 1, 0)] - 0.25, intf[max(j - 1, 0)] + 0.25}):
+                def wfcap(c, j=j, q=q):
+                    c["simulation"]["shooting_moves"][j] = "wf"
+                    c["simulation"]["tis_set"]["interface_cap"] = q
+                out.append((f"shooting_moves[{j}] = 'wf' and tis_set.interface_cap = {q}", "cap-wf", wfcap))
+    if "interface_cap" in sim["tis_set"]:
+        out.append(("tis_set.interface_cap removed", "cap-removed",
+                    lambda c: c["simulation"]["tis_set"].pop("interface_cap")))
+    # engines
+    for i in range(len(ee)):
+        out.append((f"ensemble_engines[{i}] = ['engine7'] (no such table)", "engine",
+                    _set(("simulation", "ensemble_engines", i), ["engine7"])))
+        out.append((f"'nowhere' (no such table) added to ensemble_engines[{i}]", "engine",
+                    _set(("simulation", "ensemble_engines", i), list(ee[i]) + ["nowhere"])))
+    for name in sorted({e for ens in ee for e in ens}):
+        if name in written and name not in NON_ENGINE_KEYS:
+            out.append((f"table [{name}] removed", "engine", lambda c, name=name: c.pop(name)))
+    out.append(("ensemble_engines removed", "engine-default", lambda c: c["simulation"].pop("ensemble_engines", None)))
+    # lambda_minus_one
+    if intf:
+        for v in sorted({intf[0], intf[0] + 0.25, intf[-1], intf[0] - 0.5, 0.0}):
+            out.append((f"tis_set.lambda_minus_one = {v}", "lm1", _set(("simulation", "tis_set", "lambda_minus_one"), v)))
+    out.append(("tis_set.lambda_minus_one = false", "lm1-off", _set(("simulation", "tis_set", "lambda_minus_one"), False)))
+    # harmless settings
+    out.append(("tis_set.accept_all = true, seed = 5", "harmless",
+                lambda c: (c["simulation"]["tis_set"].__setitem__("accept_all", True),
+                           c["simulation"].__setitem__("seed", 5))))
+    # everything at once
+    shim = types.SimpleNamespace(rng=rng)
+    for k in range(n_random):
+        raw = raw_toml_case(shim)
+        out.append((f"all validated fields replaced (random #{k})", "overlay", lambda c, raw=raw: overlay(c, raw)))
+    return out
+
+
+def overlay(c, raw):
+    """replace every validated field of the restart file c by those of the input file raw"""
+    c["runner"]["workers"] = raw["runner"]["workers"]
+    sim, rs = c["simulation"], raw["simulation"]
+    sim["interfaces"] = list(rs["interfaces"])
+    sim["shooting_moves"] = list(rs["shooting_moves"])
+    for k in ("interface_cap", "lambda_minus_one", "quantis", "accept_all"):
+        if k in rs["tis_set"]:
+            sim["tis_set"][k] = rs["tis_set"][k]
+        else:
+            sim["tis_set"].pop(k, None)
+    if "ensemble_engines" in rs:
+        sim["ensemble_engines"] = copy.deepcopy(rs["ensemble_engines"])
+    else:
+        sim.pop("ensemble_engines", None)
+    for name in ("engine", "engine0", "engine1"):
+        if name in raw:
+            c[name] = dict(raw[name])
+        else:
+            c.pop(name, None)
+
+
+def apply_edit(written, edit, steps):
+    c = copy.deepcopy(written)
+    c["simulation"]["steps"] = steps
+    edit(c)
+    return c
+
+
+def real_setup_route(edited, route, d, keep_data=False):
+    """The real setup_config on the edited restart file `edited` (a dict with [current]) arriving by
+    `route`; cwd = d.  Returns (outcome, returned configuration or None)."""
+    import tomli_w
+    from infretis.setup import TOMLConfigError, setup_config
+    for f in os.listdir(d):
+        if f.endswith(".toml") or (f.startswith("infretis_data") and not keep_data):
+            os.remove(os.path.join(d, f))
+    plain = {k: v for k, v in edited.items() if k != "current"}
+    try:
+        if route == "restart":
+            with open(os.path.join(d, "restart.toml"), "wb") as f:
+                tomli_w.dump(edited, f)
+            cfg = setup_config("restart.toml")
+        elif route == "equal":
+            with open(os.path.join(d, "restart.toml"), "wb") as f:
+                tomli_w.dump(edited, f)
+            with open(os.path.join(d, "infretis.toml"), "wb") as f:
+                tomli_w.dump(plain, f)
+            cfg = setup_config("infretis.toml", "restart.toml")
+        else:
+            with open(os.path.join(d, "infretis.toml"), "wb") as f:
+                tomli_w.dump(plain, f)
+            cfg = setup_config("infretis.toml", "restart.toml")
+    except Exception as e:  # noqa: BLE001
+        return classify_exc(e, TOMLConfigError), None
+    return ("NONE" if cfg is None else "OK"), cfg
+
+
+def setup_request(edited, route, paths_present=True):
+    """request line for the model's setup_from"""
+    cur = "N" if route == "fresh" else f"{edited['current']['cstep']}:{1 if paths_present else 0}"
+    extra = ("current",) if route == "fresh" else ()
+    plain = {k: v for k, v in edited.items() if k != "current"} if route == "fresh" else edited
+    return " ".join(["setup", str(edited["simulation"]["steps"]), cur] + encode(plain, extra).split(" ")[1:])
+
+
+def tree_state(d, load_dir="load"):
+    """the stored paths (sampling adds to them; setup_config never does)"""
+    out = []
+    for root, dirs, files in os.walk(os.path.join(d, load_dir)):
+        dirs.sort()
+        out += [(os.path.relpath(os.path.join(root, f), d), os.path.getsize(os.path.join(root, f))) for f in sorted(files)]
+    return out
+
+
+def slim(edited):
+    """the part of a restart file the property's list looks at (table names + runner + simulation)"""
+    return {k: (v if k in ("runner", "simulation") else {}) for k, v in edited.items()}
+
+
+def real_run_restart_cases(case):
+    """(forked child) Run the real program on the lattice engine for a few steps, then edit the
+    restart.toml IT wrote in every way of restart_edits and hand each to the real setup_config.
+    Returns plain data: the written file and one record per edit."""
+    import tomli
+    import sysharness as H
+    rng = random.Random(case["seed"])
+    wd = H.scratch("infv_c18r_")
+    try:
+        H.write_setup(wd, n_intf=case["n_intf"], moves=case.get("moves"), workers=case["workers"],
+                      steps=case["steps"], seed=case["seed"], cap=case.get("cap"),
+                      lambda_minus_one=case.get("lm1"), n_jumps=case.get("n_jumps", 2),
+                      extra_engine=case.get("extra_engine"), ensemble_engines=case.get("ensemble_engines"))
+        res = H.run_sim(wd, stop_after=case.get("stop_after"))
+        H.reset_class_state()
+        with open(os.path.join(wd, "restart.toml"), "rb") as f:
+            written = tomli.load(f)
+        info = {"status": res["status"], "cstep": written["current"]["cstep"],
+                "locked": len(written["current"]["locked"])}
+        cstep = written["current"]["cstep"]
+        steps = max(case["steps"], cstep) + 3
+        records = []
+        cwd = os.getcwd()
+        os.chdir(wd)
+        try:
+            for k, (label, cls, edit) in enumerate(restart_edits(written, rng, case.get("n_random", 4))):
+                edited = apply_edit(written, edit, steps)
+                route = ROUTES[k % 2] if k else "restart"
+                before = tree_state(wd)
+                real, cfg = real_setup_route(edited, route, wd, keep_data=True)
+                rec = {"label": label, "cls": cls, "edited": edited, "route": route, "impl": real,
+                       "paths_present": True, "touched": tree_state(wd) != before}
+                if cfg is not None:
+                    rec["returned_invalid"] = invalid_reasons(cfg)
+                    rec["restarted_from"] = cfg["current"].get("restarted_from")
+                    rec["enc"] = enc_normalised(cfg)
+                records.append(rec)
+            # a finished run and a run with a lost path: setup_config answers None
+            fin = apply_edit(written, lambda c: None, cstep)
+            real, _ = real_setup_route(fin, "restart", wd, keep_data=True)
+            records.append({"label": "steps = cstep (finished)", "cls": "finished", "edited": fin,
+                            "route": "restart", "impl": real, "paths_present": True, "touched": False})
+        finally:
+            os.chdir(cwd)
+        # the usual continuation must not only be accepted but run on to the end
+        import tomli_w
+        cont = apply_edit(written, lambda c: None, steps)
+        with open(os.path.join(wd, "restart.toml"), "wb") as f:
+            tomli_w.dump(cont, f)
+        try:
+            r2 = H.run_sim(wd, inp="restart.toml")
+            with open(os.path.join(wd, "restart.toml"), "rb") as f:
+                end = tomli.load(f)["current"]["cstep"]
+            info["continuation"] = "ok" if (r2["status"] == "done" and end == steps) else \
+                f"status {r2['status']}, restart file at step {end} of {steps}"
+        except Exception as e:  # noqa: BLE001
+            info["continuation"] = f"{type(e).__name__}: {e}"
+        info["continued_config"] = cont
+        return {"case": case, "written": written, "info": info, "records": records}
+    finally:
+        common.rmtree(wd)
+
+
+def real_run_cases(tier):
+    eng1 = {"engine1": {"class": "LatticeEngine", "module": None, "wall": -4}}
+    cases = [
+        {"n_intf": 3, "workers": 1, "steps": 2, "seed": 1},
+        {"n_intf": 4, "moves": ["sh", "wf", "wf", "sh"], "cap": 2.75, "lm1": -1.5, "workers": 2, "steps": 3, "seed": 2},
+        {"n_intf": 4, "workers": 3, "steps": 6, "seed": 3, "stop_after": 2},
+        {"n_intf": 5, "moves": ["sh", "wf", "wf", "wf", "sh"], "cap": 3.75, "workers": 2, "steps": 3, "seed": 4, "n_jumps": 3},
+        {"n_intf": 3, "workers": 2, "steps": 3, "seed": 5, "extra_engine": eng1,
+         "ensemble_engines": [["engine"], ["engine", "engine1"], ["engine1"]]},
+        {"n_intf": 2, "workers": 1, "steps": 2, "seed": 6},
+    ]
+    if tier == "thorough":
+        for s in range(7, 31):
+            n = 2 + s % 5
+            wf = s % 2 == 0 and n >= 3
+            cases.append({"n_intf": n, "workers": 1 + s % max(n - 1, 1), "steps": 2 + s % 4, "seed": s,
+                          "moves": (["sh"] + ["wf"] * (n - 2) + ["sh"]) if wf else None,
+                          "cap": (n - 1.25) if wf else None, "lm1": -1.5 if s % 3 == 0 else None,
+                          "stop_after": 2 if s % 4 == 1 else None, "n_random": 12})
+    import sysharness as H
+    for c in cases:
+        if c.get("extra_engine"):
+            for sec in c["extra_engine"].values():
+                sec["module"] = H.PLUGINS
+    return cases
 
 
 # --------------------------------------------------------------------------- TODO hook
@@ -513,7 +799,10 @@ def run(ctx):
     tally = Tally()
     stats = {"compared": 0, "disagreements": 0, "kind_agreement": 0, "oracle_vs_validb_disagreements": 0,
              "setup_compared": 0, "setup_disagreements": 0, "restart_roundtrips": 0,
-             "outcomes": {}, "model_results": {}}
+             "outcomes": {}, "model_results": {},
+             "restart_route": {"stub_written_files": 0, "real_runs": 0, "real_run_info": [], "compared": 0,
+                               "disagreements": 0, "oracle_vs_validb_disagreements": 0, "edit_classes": {},
+                               "outcomes": {}}}
 
     def process(batch, mode):
         """batch: list of (tag, cfg, real_outcome, extra_keys, raw_for_replay)"""
@@ -559,6 +848,85 @@ def run(ctx):
             if m_check == real or (m_check.startswith(real) and real in ("CE:CapWf", "CE:EngineUndef")):
                 stats["kind_agreement"] += 1
         return outs
+
+    def judge_restart(items):
+        """items: edited restart files with the implementation's answer; asks the model (setup_from)
+        and the oracle"""
+        rr = stats["restart_route"]
+        reqs = [setup_request(it["edited"], it["route"], it["paths_present"]) for it in items]
+        outs = runner.run(reqs)
+        for it, req, out in zip(items, reqs, outs):
+            real, route = it["impl"], it["route"]
+            oc = outcome_class(real)
+            parts = out.split(" ")
+            cur = it["edited"]["current"]
+            payload = {"mode": "restart_edit", "route": route, "edit": it["label"], "config": it["edited"],
+                       "paths_present": it["paths_present"], "base": it["base"], "request": req, "impl": real,
+                       "model": parts[0]}
+            ctx.count(f"route {route} {req}", nontrivial=True)
+            ctx.dist(f"restart-route:{it['base_kind']}:{route}:{it['cls']}")
+            rr["compared"] += 1
+            rr["edit_classes"][it["cls"]] = rr["edit_classes"].get(it["cls"], 0) + 1
+            if out.startswith("ERR") or (out != "NONE" and len(parts) != 12):
+                tally.add(("model-error", "restart"), f"model runner failed on a request: {out[:80]}",
+                          dict(payload, correspondence="c18 runner", model=out), False)
+                continue
+            if out == "NONE":
+                key = f"{route}:no-answer:{oc}"
+                rr["outcomes"][key] = rr["outcomes"].get(key, 0) + 1
+                if oc != "NONE":
+                    rr["disagreements"] += 1
+                    tally.add(("corr-restart", "NONE", oc),
+                              f"correspondence model/implementation broken (setup_config, route {route}): the model gives no "
+                              f"answer (finished run or missing path), the implementation {real}",
+                              dict(payload, correspondence="setup_from vs infretis.setup.setup_config"), False)
+                continue
+            m_res, m_valid = parts[0], parts[1] == "1"
+            why = invalid_reasons(documented_defaults(slim(it["edited"])))
+            payload["invalid_because"] = why
+            key = f"{route}:{'valid' if not why else 'invalid'}:{oc}"
+            rr["outcomes"][key] = rr["outcomes"].get(key, 0) + 1
+            if (not why) != m_valid:
+                rr["oracle_vs_validb_disagreements"] += 1
+                tally.add(("oracle", "restart"), "harness oracle and the model's validb (proved = valid) disagree on an edited restart file",
+                          dict(payload, obligation="python oracle == validb o normalise", validb=m_valid), False)
+                continue
+            if why and oc != "CE" and oc != "NONE":
+                how = {"restart": "given as the input file", "equal": "used in place of an infretis.toml with the same tables",
+                       "fresh": "stripped of its [current] table (fresh start)"}[route]
+                tally.add(("prop-restart", route != "fresh", re.sub(r"\d+", "#", why[0]), oc),
+                          f"C18 fails on the implementation: a restart file written by the program at step {cur['cstep']}, then edited "
+                          f"({it['label']}; steps = {it['edited']['simulation']['steps']}) into a configuration with {', '.join(why)} and {how}, is "
+                          + (f"accepted by setup_config (sampling would go on from step {cur['cstep']})" if oc == "OK" else f"met with {oc[6:]}")
+                          + " instead of TOMLConfigError",
+                          dict(payload, expected="TOMLConfigError"), True)
+                rr["disagreements"] += outcome_class(m_res) != oc
+                continue
+            if outcome_class(m_res) != oc:
+                rr["disagreements"] += 1
+                tally.add(("corr-restart", outcome_class(m_res), oc),
+                          f"correspondence model/implementation broken (setup_config, route {route}): model {m_res}, implementation {real} "
+                          f"on an edited restart file ({it['label']})",
+                          dict(payload, correspondence="setup_from vs infretis.setup.setup_config"), False)
+                continue
+            if oc == "CE" and it.get("touched"):
+                tally.add(("prop-restart-touched",), "C18 fails on the implementation: the stored paths changed although the edited restart "
+                          f"file ({it['label']}) was rejected", dict(payload, expected="rejected before sampling starts"), True)
+            if oc == "OK":
+                if it.get("returned_invalid"):
+                    tally.add(("prop-restart-accepted", it["returned_invalid"][0]),
+                              f"C18 fails on the implementation: setup_config returned from an edited restart file ({it['label']}) "
+                              f"a configuration with {', '.join(it['returned_invalid'])}",
+                              dict(payload, invalid_because=it["returned_invalid"], expected="TOMLConfigError"), True)
+                elif it.get("enc") != " ".join(parts[2:]):
+                    rr["disagreements"] += 1
+                    tally.add(("corr-restart-norm",), f"correspondence broken (route {route}): configuration returned by setup_config "
+                              "differs from the model's normalise", dict(payload, impl=it.get("enc"), model=" ".join(parts[2:]),
+                                                                         correspondence="normalise vs setup_config defaults"), False)
+                elif route != "fresh" and it.get("restarted_from") != cur["cstep"]:
+                    rr["disagreements"] += 1
+                    tally.add(("corr-restart-from",), f"setup_config did not record the step it restarts from (route {route})",
+                              dict(payload, correspondence="restarted_from == cstep"), False)
 
     # ---------------- direct check_config: exhaustive small scope + random engine tables
     chunk = []
@@ -651,6 +1019,73 @@ def run(ctx):
             if " ".join(out.split(" ")[4:]) != req[4:]:
                 tally.add(("idem",), "extracted normalise is not idempotent on a normalised configuration",
                           {"mode": "model", "config": req, "model": out, "obligation": "C18_normalise_idempotent (extraction)"}, False)
+        # ---------------- the restart route: program-written restart files, edited, re-read
+        import tomli
+        rr = stats["restart_route"]
+        nbase = 100 if ctx.tier == "quick" else 1000
+        items = []
+        for bi, (raw, cfg, _) in enumerate(norm_meta[1::2][:nbase]):
+            base_cfg = copy.deepcopy(cfg)
+            base_cfg["current"].pop("restarted_from", None)
+            k = ctx.rng.randrange(1, 10)
+            base_cfg["current"]["cstep"] = k
+            for f in os.listdir(d):
+                if f.endswith(".toml"):
+                    os.remove(os.path.join(d, f))
+            touch_active_paths(base_cfg, d)
+            write_restart_real(base_cfg)
+            with open("restart.toml", "rb") as f:
+                written = tomli.load(f)
+            rr["stub_written_files"] += 1
+            base = {"kind": "restart.toml written by the real write_toml at step k from the configuration the real "
+                            "setup_config returned for a fresh input file", "k": k, "fresh_input": raw}
+            for j, (label, cls, edit) in enumerate(restart_edits(written, ctx.rng, 6)):
+                edited = apply_edit(written, edit, 20)
+                route = "restart" if j == 0 else ROUTES[(j + bi) % 3]
+                real, out = real_setup_route(edited, route, d)
+                it = {"label": label, "cls": cls, "edited": edited, "route": route, "impl": real,
+                      "paths_present": True, "base": base, "base_kind": "stub"}
+                if out is not None:
+                    it.update(returned_invalid=invalid_reasons(out), enc=enc_normalised(out),
+                              restarted_from=out["current"].get("restarted_from"))
+                items.append(it)
+            # no answer: the run is finished; a stored path is gone (checked on an invalid edit too)
+            for label, edit in (("steps = cstep (finished)", lambda c: None),
+                                ("steps = cstep (finished) and workers = 100", _set(("runner", "workers"), 100))):
+                edited = apply_edit(written, edit, k)
+                real, _ = real_setup_route(edited, "restart", d)
+                items.append({"label": label, "cls": "finished", "edited": edited, "route": "restart", "impl": real,
+                              "paths_present": True, "base": base, "base_kind": "stub"})
+            gone = os.path.join(d, written["simulation"].get("load_dir", "trajs"), str(written["current"]["active"][-1]), "traj.txt")
+            os.remove(gone)
+            for label, edit in (("a stored path removed", lambda c: None),
+                                ("a stored path removed and workers = 100", _set(("runner", "workers"), 100))):
+                edited = apply_edit(written, edit, 20)
+                real, _ = real_setup_route(edited, ("restart", "equal")[bi % 2], d)
+                items.append({"label": label, "cls": "path-gone", "edited": edited, "route": ("restart", "equal")[bi % 2],
+                              "impl": real, "paths_present": False, "base": base, "base_kind": "stub"})
+            open(gone, "w").close()
+        judge_restart(items)
+
+        # the same on restart files left behind by real runs (lattice engine, in-process scheduler)
+        import sysharness as H
+        cases = real_run_cases(ctx.tier)
+        for case, (tag, res) in zip(cases, H.run_many(real_run_restart_cases, cases, jobs=6, timeout=300)):
+            if tag != "ok":
+                tally.add(("real-run-failed",), f"real run for the restart route failed in the harness: {str(res)[:300]}",
+                          {"mode": "restart_real_run", "config": case, "case": case, "error": str(res)[-2000:]}, False)
+                continue
+            rr["real_runs"] += 1
+            info = res["info"]
+            rr["real_run_info"].append({k: info[k] for k in ("status", "cstep", "locked", "continuation")})
+            base = {"kind": "restart.toml left behind by a real run (py/sysharness.py, lattice engine)", "case": case,
+                    "status": info["status"], "cstep": info["cstep"], "locked_jobs": info["locked"]}
+            if info["continuation"] != "ok":
+                tally.add(("continuation",), "C18 fails on the implementation: the restart file a real run left behind, with only "
+                          f"the number of steps raised, is accepted but does not run on to the end: {info['continuation']}",
+                          {"mode": "restart_real_run", "config": info["continued_config"], "case": case, "base": base,
+                           "expected": "accepted configurations initialise and run"}, True)
+            judge_restart([dict(r, base=base, base_kind="real-run") for r in res["records"]])
     finally:
         os.chdir(cwd)
         common.rmtree(d)
